@@ -1,6 +1,6 @@
 (** Step lemmas of the simulation invariant: the primitive state transformers of the pool model. *)
 From OCV Require Import Base.Prelude Misc.Time Queue.PMap Queue.OWS Queue.OWSOracle Queue.OWSLemmas Queue.OWSModel Queue.OWSStep.
-From OCV Require Import Coroutine.Co Coroutine.CoLemmas Sched.Sched Sched.Pool Sched.PoolOracle Sched.PoolBase Sched.PoolWf Sched.PoolQ Sched.PoolJ Sched.PoolJLemmas Sched.PoolCanon Sched.PoolUnfold.
+From OCV Require Import Coroutine.Co Coroutine.CoLemmas Sched.Sched Sched.Pool Sched.PoolOracle Sched.PoolBase Sched.PoolWf Sched.PoolQ Sched.PoolJ Sched.PoolJLemmas Sched.PoolCanon Sched.PoolUnfold Sched.PoolMeasure.
 From Coq Require Import ZifyBool ZifyNat.
 Open Scope Z_scope.
 
@@ -75,7 +75,7 @@ Lemma JT_grow ws tqi tb tk ct cc rt h kN :
   (forall v, h = Some v -> (v < length ws)%nat) ->
   JT (ws ++ [kN]) tqi tb tk ct cc rt h.
 Proof.
-  intros [Hlen Hq Hta Hhold Hinj Hmode Htb Hte Ht3 Htf Hrtnd Hrt Hrts Hrt3 Hcc Hc0 Hctb Hsuf Hfin] Hst Htask Htp Hdead Hh.
+  intros [Hlen Hq Hta Hhold Hinj Hmode Htb Hte Ht3 Htf Hrtnd Hrt Hrts Hrt3 Hcc Hc0 Hctb Hsuf Hfin Hccnd Hccb] Hst Htask Htp Hdead Hh.
   assert (is_hole h (length ws) = false) as Hnh.
   { destruct h as [v|]; [|reflexivity]. cbn [is_hole]. specialize (Hh v eq_refl). apply Nat.eqb_neq. lia. }
   constructor; try assumption.
@@ -95,6 +95,7 @@ Proof.
   - intros w k i rest Hn Hl Hk. apply nth_error_snoc_cases in Hn as [Hn|[-> ->]]; [eapply Hrt3; eassumption | congruence].
   - intros w k i rest Hn Hl Hk Hc1. apply nth_error_snoc_cases in Hn as [Hn|[-> ->]]; [eapply Hcc; eassumption | congruence].
   - intros w k i rest Hn Hk. apply nth_error_snoc_cases in Hn as [Hn|[-> ->]]; [eapply Hsuf; eassumption | congruence].
+  - intros v Hv. rewrite app_length. cbn [length]. specialize (Hccb v Hv). lia.
 Qed.
 
 (** * try_grow *)
@@ -157,7 +158,7 @@ Lemma JT_set_live ws tqi tb tk ct cc rt h w k k' :
              end) ->
   JT (set_nth w k' ws) tqi tb tk ct cc rt h.
 Proof.
-  intros [Hlen Hq Hta Hhold Hinj Hmode Htb Hte Ht3 Htf Hrtnd Hrt Hrts Hrt3 Hcc Hc0 Hctb Hsuf Hfin] Hn Hl Hl' Etask Etp Edead Hm.
+  intros [Hlen Hq Hta Hhold Hinj Hmode Htb Hte Ht3 Htf Hrtnd Hrt Hrts Hrt3 Hcc Hc0 Hctb Hsuf Hfin Hccnd Hccb] Hn Hl Hl' Etask Etp Edead Hm.
   constructor; try assumption.
   - intros v kv i rest Hv Hk. apply nth_error_set_nth_cases in Hv as [(-> & -> & _)|(Hne & Hv)].
     + rewrite Etask in Hk. eapply Hhold; eassumption.
@@ -193,6 +194,7 @@ Proof.
   - intros v kv i rest Hv Hk. apply nth_error_set_nth_cases in Hv as [(-> & -> & _)|(Hne & Hv)].
     + rewrite Etask in Hk. eapply Hsuf; eassumption.
     + eapply Hsuf; eassumption.
+  - intros v Hv. rewrite set_nth_length. apply Hccb, Hv.
 Qed.
 
 (** the worker dies: it held no task, or a task whose cancellation was requested *)
@@ -202,7 +204,7 @@ Lemma JT_set_dead ws tqi tb tk ct cc rt h w k k' :
   (k_task k = None \/ exists i rest, k_task k = Some (i, rest) /\ tt_cancel1 (tkn tk i) = true) ->
   JT (set_nth w k' ws) tqi tb tk ct cc rt h.
 Proof.
-  intros [Hlen Hq Hta Hhold Hinj Hmode Htb Hte Ht3 Htf Hrtnd Hrt Hrts Hrt3 Hcc Hc0 Hctb Hsuf Hfin] Hn Hl' Etask Hk0.
+  intros [Hlen Hq Hta Hhold Hinj Hmode Htb Hte Ht3 Htf Hrtnd Hrt Hrts Hrt3 Hcc Hc0 Hctb Hsuf Hfin Hccnd Hccb] Hn Hl' Etask Hk0.
   constructor; try assumption.
   - intros v kv i rest Hv Hk. apply nth_error_set_nth_cases in Hv as [(-> & -> & _)|(Hne & Hv)].
     + rewrite Etask in Hk. eapply Hhold; eassumption.
@@ -233,6 +235,7 @@ Proof.
   - intros v kv i rest Hv Hk. apply nth_error_set_nth_cases in Hv as [(-> & -> & _)|(Hne & Hv)].
     + rewrite Etask in Hk. eapply Hsuf; eassumption.
     + eapply Hsuf; eassumption.
+  - intros v Hv. rewrite set_nth_length. apply Hccb, Hv.
 Qed.
 
 (** the hole worker's record changes: locations do not look at it *)
@@ -267,7 +270,7 @@ Lemma JT_set_hole ws tqi tb tk ct cc rt w k k' :
      body_outcome rest = body_outcome (nth i tb []) /\ (length rest <= length (nth i tb []))%nat) ->
   JT (set_nth w k' ws) tqi tb tk ct cc rt (Some w).
 Proof.
-  intros [Hlen Hq Hta Hhold Hinj Hmode Htb Hte Ht3 Htf Hrtnd Hrt Hrts Hrt3 Hcc Hc0 Hctb Hsuf Hfin] Hn El Etid Hsuf'.
+  intros [Hlen Hq Hta Hhold Hinj Hmode Htb Hte Ht3 Htf Hrtnd Hrt Hrts Hrt3 Hcc Hc0 Hctb Hsuf Hfin Hccnd Hccb] Hn El Etid Hsuf'.
   assert (forall i rest, k_task k' = Some (i, rest) -> exists rest0, k_task k = Some (i, rest0)) as Hback.
   { intros i rest Hk. apply tid_some in Hk. rewrite Etid in Hk. apply tid_some_inv, Hk. }
   assert (forall i rest, k_task k = Some (i, rest) -> exists rest0, k_task k' = Some (i, rest0)) as Hfwd.
@@ -307,6 +310,7 @@ Proof.
   - intros v kv i rest Hv Hk. apply nth_error_set_nth_cases in Hv as [(-> & -> & _)|(Hne & Hv)].
     + apply Hsuf', Hk.
     + eapply Hsuf; eassumption.
+  - intros v Hv. rewrite set_nth_length. apply Hccb, Hv.
 Qed.
 
 Lemma JL_clock c c' ws cqi d h : c <= c' -> JL c ws cqi d h -> JL c' ws cqi d h.
@@ -331,7 +335,7 @@ Lemma JT_finish ws tqi tb tk ct cc rt w k i rest r :
   nth_error ws w = Some k -> live k = true -> k_task k = Some (i, rest) -> r = body_outcome rest ->
   JT (set_nth w (with_task k None) ws) tqi tb (set_nth i (fin_rec (tkn tk i) r) tk) ct cc (assoc_del i rt) (Some w).
 Proof.
-  intros HT Hn Hl Hk Hr. pose proof HT as [Hlen Hq Hta Hhold Hinj Hmode Htb Hte Ht3 Htf Hrtnd Hrt Hrts Hrt3 Hcc Hc0 Hctb Hsuf HfinJ].
+  intros HT Hn Hl Hk Hr. pose proof HT as [Hlen Hq Hta Hhold Hinj Hmode Htb Hte Ht3 Htf Hrtnd Hrt Hrts Hrt3 Hcc Hc0 Hctb Hsuf HfinJ Hccnd Hccb].
   destruct (Hhold _ _ _ _ Hn Hk) as (Hi & Hacc & Hst & Hfc & Hfin & Hnq).
   assert (i < length tk)%nat as Hi' by lia.
   assert (forall j, j <> i -> tkn (set_nth i (fin_rec (tkn tk i) r) tk) j = tkn tk j) as Ho.
@@ -388,6 +392,8 @@ Proof.
   - intros j r'. destruct (Nat.eq_dec j i) as [->|Hji].
     + rewrite Hs. cbn [fin_rec tt_fin]. intro E. injection E as <-. rewrite Hr. apply (Hsuf _ _ _ _ Hn Hk).
     + rewrite (Ho j Hji). apply HfinJ.
+  - exact Hccnd.
+  - intros v Hv. rewrite set_nth_length. apply Hccb, Hv.
 Qed.
 
 Lemma JR_no_result_for_held W R N pst tqi tk i r0 :
@@ -532,7 +538,7 @@ Lemma JT_popcancel ws tqi tqi' tb tk ct ct' cc rt h i :
   (forall j, j <> i -> In j ct -> In j ct') -> (forall j, In j ct' -> In j ct) ->
   JT ws tqi' tb tk ct' cc rt h.
 Proof.
-  intros [Hlen Hq Hta Hhold Hinj Hmode Htb Hte Ht3 Htf Hrtnd Hrt Hrts Hrt3 Hcc Hc0 Hctb Hsuf Hfin] Hin Hcnt Hc0i Hct1 Hct2.
+  intros [Hlen Hq Hta Hhold Hinj Hmode Htb Hte Ht3 Htf Hrtnd Hrt Hrts Hrt3 Hcc Hc0 Hctb Hsuf Hfin Hccnd Hccb] Hin Hcnt Hc0i Hct1 Hct2.
   constructor; try assumption.
   - intros z Hz. apply Hin in Hz as [Hz Hne]. destruct (Hq z Hz) as (j & -> & Hj & Hc & Hr). exists j.
     rewrite (Hcnt _ Hne). auto.
@@ -631,7 +637,7 @@ Lemma JT_start ws tqi tqi' tb tk ct cc rt w k k' i :
   JT (set_nth w k' ws) tqi' tb (set_nth i (start_rec (tkn tk i)) tk) ct cc (assoc_del i rt ++ [(i, w)]) (Some w).
 Proof.
   intros HT Hn Hl Hnone Hncc Hz Hin Hcnt Est Etask.
-  pose proof HT as [Hlen Hq Hta Hhold Hinj Hmode Htb Hte Ht3 Htf Hrtnd Hrt Hrts Hrt3 Hcc Hc0 Hctb Hsuf HfinJ].
+  pose proof HT as [Hlen Hq Hta Hhold Hinj Hmode Htb Hte Ht3 Htf Hrtnd Hrt Hrts Hrt3 Hcc Hc0 Hctb Hsuf HfinJ Hccnd Hccb].
   destruct (Hq _ Hz) as (i0 & E0 & Hi & Hc1 & Hacc & Hst & Hfin & Hfc & Hbody & Hnc1). apply Nat2Z.inj in E0. subst i0.
   assert (i < length tk)%nat as Hi' by lia.
   assert (w < length ws)%nat as Hlt by (eapply nth_error_Some_lt, Hn).
@@ -705,6 +711,8 @@ Proof.
   - intros j r'. destruct (Nat.eq_dec j i) as [->|Hji].
     + rewrite Hs. cbn [start_rec tt_fin]. apply HfinJ.
     + rewrite (Ho j Hji). apply HfinJ.
+  - exact Hccnd.
+  - intros v Hv. rewrite set_nth_length. apply Hccb, Hv.
 Qed.
 
 Lemma JR_start W R N pst tqi tqi' tk i :
@@ -742,6 +750,21 @@ Proof.
     + rewrite Hs. cbn [start_rec tt_consumed]. congruence.
     + rewrite (Ho j Hji). intro Hc. destruct (Hcons j Hc) as [H|[[H1 H2]|H]]; auto.
 Qed.
+
+Lemma rho_grown x x' : grown x x' -> rho x' = rho x + 1.
+Proof.
+  intros [Ews Ecq Epool Epools Eclock Etq Etb Ect Ecc Ert Ecur Espin Ecn Ets]. unfold rho.
+  rewrite Ews, Etq, Etb, wsum_app, nlive_app.
+  change (wsum [newk (pw_clock x)]) with O. change (nlive [newk (pw_clock x)]) with 1. lia.
+Qed.
+
+Lemma rho_try_grow x : length (pw_pools x) = 1%nat -> rho x <= rho (try_grow x 0) <= rho x + 1.
+Proof.
+  intro Hp. destruct (try_grow_cases x Hp) as [[-> _]|(_ & _ & Hg)]; [lia|]. rewrite (rho_grown _ _ Hg). lia.
+Qed.
+
+Lemma rho_upd_pool x p f : rho (upd_pool x p f) = rho x.
+Proof. reflexivity. Qed.
 
 Section Steps.
 Variable mx : Z.
@@ -1235,6 +1258,81 @@ Proof.
   constructor; autorewrite with pw; rewrite ?E'; rewrite ?E in *; try assumption.
   - constructor; assumption.
   - destruct HP as [P1 P2 P3 P4 P5 P6 P7 P8 P9 P10 P11 P12]. constructor; autorewrite with pw; assumption.
+Qed.
+
+(** * how the measure moves *)
+Lemma k_change_rho x w k new x' e :
+  length (pw_pools x) = 1%nat -> pw_cur x = 0%nat -> get_worker x w = Some k -> live k = true ->
+  k_change x w new = (x', e) ->
+  rho x' + (if terminal new then 1 + 3 * Z.of_nat (tasklen k) else 0) <= rho x + (if creator_grows new then 1 else 0) /\
+  rho x <= rho x' + (if terminal new then 1 + 3 * Z.of_nat (tasklen k) else 0).
+Proof.
+  intros Hp Hcur Hk Hl E. unfold k_change in E. rewrite Hk in E. injection E as <- _.
+  change {| k_st := new; k_create := k_create k; k_task := k_task k; k_tpool := k_tpool k; k_dead := k_dead k |} with (with_st k new).
+  set (x1 := upd_worker x w (with_st k new)).
+  pose proof (rho_upd_worker x w k (with_st k new) Hk) as H1. fold x1 in H1.
+  rewrite (wwork_live k Hl), Hl in H1. unfold wwork, live in H1. cbn [with_st k_st] in H1.
+  change (tasklen (with_st k new)) with (tasklen k) in H1. cbn [b2z] in H1.
+  assert (pw_cur x1 = 0%nat) as Hc1 by exact Hcur.
+  assert (length (pw_pools x1) = 1%nat) as Hp1 by exact Hp.
+  unfold creator. rewrite Hc1.
+  destruct new as [| |y ts|y n st| |r|m]; cbn [terminal negb creator_grows b2z] in *.
+  - lia.
+  - lia.
+  - pose proof (rho_try_grow x1 Hp1). lia.
+  - pose proof (rho_try_grow x1 Hp1). lia.
+  - set (x2 := upd_pool x1 0 _). assert (length (pw_pools x2) = 1%nat) as Hp2 by (unfold x2; rewrite pools_len_upd_pool; exact Hp1).
+    pose proof (rho_try_grow x2 Hp2) as H. change (rho x2) with (rho x1) in H. lia.
+  - rewrite rho_upd_pool. lia.
+  - set (x2 := upd_pool x1 0 _). assert (length (pw_pools x2) = 1%nat) as Hp2 by (unfold x2; rewrite pools_len_upd_pool; exact Hp1).
+    pose proof (rho_try_grow x2 Hp2) as H. change (rho x2) with (rho x1) in H. lia.
+Qed.
+
+Lemma rho_of_post x xg ws' tq' ct' rt' q' :
+  upd_post x xg ws' tq' ct' rt' q' ->
+  rho xg = 3 * Z.of_nat (qsum (pw_tbody x) (all_items tq') + wsum ws') + nlive ws'.
+Proof. intros [U1 U2 U3 U4 U5 U6 U7 U8 U9 U10 U11 U12 U13 U14]. unfold rho. rewrite U1, U2, U9. reflexivity. Qed.
+
+Lemma finish_rho x w k i r xf :
+  length (pw_pools x) = 1%nat -> get_worker x w = Some k -> live k = true ->
+  finish_task (upd_worker x w (with_task k None)) 0 i r = FinOk xf ->
+  rho (upd_pool xf 0 (p_with_popfail 0)) + 3 * Z.of_nat (tasklen k) = rho x.
+Proof.
+  intros Hp Hk Hl E. rewrite rho_upd_pool. set (xa := upd_worker x w (with_task k None)) in *.
+  assert (length (pw_pools xa) = 1%nat) as Hpa by exact Hp.
+  pose proof (finish_task_post xa i r Hpa) as Hpost. cbv zeta in Hpost. rewrite E in Hpost.
+  assert (rho xf = rho xa) as ->.
+  { destruct Hpost as [(_ & Hu)|(_ & _ & Hu)]; rewrite (rho_of_post _ _ _ _ _ _ _ Hu); reflexivity. }
+  pose proof (rho_upd_worker x w k (with_task k None) Hk) as H1. fold xa in H1.
+  rewrite (wwork_live k Hl) in H1. unfold wwork in H1. change (live (with_task k None)) with (live k) in H1. rewrite Hl in H1.
+  change (tasklen (with_task k None)) with O in H1. lia.
+Qed.
+
+Lemma pop_cancel_rho x q' tz :
+  length (pw_pools x) = 1%nat ->
+  (forall y, cnt y (all_items (pw_tq x)) = (one y tz + cnt y (all_items q'))%nat) ->
+  rho (pop_cancel x 0 q' (Z.to_nat tz)) + 3 * Z.of_nat (blen (pw_tbody x) (Z.to_nat tz) + 2) = rho x.
+Proof.
+  intros Hp Hcnt. destruct (pop_cancel_post x q' (Z.to_nat tz) Hp) as (W & R & N & Hu & _).
+  rewrite (rho_of_post _ _ _ _ _ _ _ Hu). unfold rho. rewrite (qsum_pop _ _ _ _ Hcnt). lia.
+Qed.
+
+Lemma pop_start_rho x q' tz w k :
+  get_worker x w = Some k -> live k = true -> k_task k = None ->
+  (forall y, cnt y (all_items (pw_tq x)) = (one y tz + cnt y (all_items q'))%nat) ->
+  rho (pop_start x 0 q' (Z.to_nat tz) w k) + 3 = rho x.
+Proof.
+  intros Hk Hl Ht Hcnt. unfold pop_start.
+  set (k' := {| k_st := k_st k; k_create := k_create k; k_task := Some (Z.to_nat tz, nth (Z.to_nat tz) (pw_tbody _) []); k_tpool := 0%nat; k_dead := k_dead k |}).
+  set (x2 := set_globals _ _ _ _).
+  assert (get_worker x2 w = Some k) as Hk2 by exact Hk.
+  pose proof (rho_upd_worker x2 w k k' Hk2) as H1.
+  assert (rho x2 + 3 * Z.of_nat (blen (pw_tbody x) (Z.to_nat tz) + 2) = rho x) as H2.
+  { unfold rho, x2. autorewrite with pw. rewrite (qsum_pop _ _ _ _ Hcnt). lia. }
+  assert (wwork k = O) as E0 by (apply wwork_idle, Ht).
+  assert (live k' = true) as Hl' by exact Hl.
+  assert (wwork k' = S (blen (pw_tbody x) (Z.to_nat tz))) as E1 by (rewrite (wwork_live k' Hl'); reflexivity).
+  rewrite E0, E1, Hl, Hl' in H1. cbn [b2z] in H1. lia.
 Qed.
 
 End Steps.
